@@ -96,7 +96,8 @@ AddrText(steps, i) ==
 HoverViol(e) ==
   LET open == OpenTok(e.cons, e.expr, "") \cup OpenIn(e.expr, "") \cup OpenKeyHover(e.cons, e.expr, "")
       toks == TokensP(e.cons, e.expr, "", SelfOn(e))
-      interp(p) == \E tk \in toks : tk[3] = p
+      interp(p) == LET n == NodeAt(e.expr, Split(p)) IN
+                   IF e.cons.k = "typeDecl" /\ n.k \in TypeKinds THEN TypeValid(n) ELSE \E tk \in toks : tk[3] = p
       bads == { i \in DOMAIN e.hovers :
                  LET h == e.hovers[i] p == h[1] IN
                  /\ ~InOpen(e, open, e.ext[p][1], e.ext[p][2])
